@@ -1,18 +1,19 @@
 (* The two instances of the numeric carrier of DistModel, the exact (rational)
    specification of "probability of scoring at least t", and the executable
    checkers used by the correspondence run.  Definitions only. *)
-From Coq Require Import List ZArith QArith Qround Bool Arith Lia.
+From Coq Require Import List ZArith QArith Qround Qabs Bool Arith Lia.
 From Flocq Require Import Core BinarySingleNaN.
 From LMBase Require Import Res ListX IEEE.
 From LMDist Require Import DistModel.
 Import ListNotations.
+Local Open Scope Q_scope.
 
 (* ---------- binary64 (bit-exact replay) ---------- *)
 
 Definition f64_is_inf (x : F64.t) : bool :=
   match x with B754_infinity _ => true | _ => false end.
 
-Definition f64_one : F64.t := F64.of_Z 1.
+Definition f64_one : F64.t := F64.of_Z 1%Z.
 
 (* (i as f32) / (scale as f32) + (wo as f32), widened (exactly) to f64 *)
 Definition f64_unscale (i : Z) (scale : F64.t) (wo : Z) : F64.t :=
@@ -160,12 +161,12 @@ Section Check.
      0 = yes, 1 = an entry outside [0,1], 2 = an increase *)
   Fixpoint chk_table (sf : list T) : nat :=
     match sf with
-    | [] => 0
+    | [] => 0%nat
     | x :: r =>
-        if negb (leb_n (n_zero N) x && leb_n x (n_one N)) then 1
+        if negb (leb_n (n_zero N) x && leb_n x (n_one N)) then 1%nat
         else match r with
-             | [] => 0
-             | y :: _ => if leb_n y x then chk_table r else 2
+             | [] => 0%nat
+             | y :: _ => if leb_n y x then chk_table r else 2%nat
              end
     end.
 
@@ -178,7 +179,47 @@ Section Check.
     forallb (fun a => forallb (fun b => chk_mono_pair a b) probes) probes.
 
   (* pvalue(score(p)) <= p for p in (0,1) *)
+  Definition in_open01 (p : T) : bool :=
+    match n_cmp N (n_zero N) p, n_cmp N p (n_one N) with
+    | Some Lt, Some Lt => true
+    | _, _ => false
+    end.
   Definition chk_roundtrip (p rt : T) : bool :=
-    if ltb_n p then leb_n rt p else true
-  with_ltb.
+    if in_open01 p then leb_n rt p else true.
 End Check.
+
+(* P(S >= s + d) <= pv <= P(S >= s - d), d = (M/2 + 1) / scale, against the table of
+   all words; [eps] (relative) and [delta] (absolute) are the stated tolerances for the
+   binary64 summation error and for a background whose total weight is not exactly 1.
+   0 = inside, 1 = below the lower bracket, 2 = above the upper bracket *)
+Definition chk_bracket (tab : list (Q * Q)) (scale : Q) (M : Z) (eps delta : Q) (s pv : Q) : nat :=
+  let d := (inject_Z M / 2 + 1) / scale in
+  let lo := tail_tab tab (Qred (s + d)) 0 in
+  let hi := tail_tab tab (Qred (s - d)) 0 in
+  if Qle_bool (lo * (1 - eps) - delta) pv
+  then (if Qle_bool pv (hi * (1 + eps) + delta) then 0%nat else 2%nat)
+  else 1%nat.
+
+(* |1 - (sum of the background)^M| *)
+Definition mass_defect (bg : list Q) (M : nat) : Q :=
+  Qred (Qabs (1 - Qpower (Qred (Qsum bg)) (Z.of_nat M))).
+
+(* instances used by the driver *)
+Definition f64_build := build F64Ops.
+Definition f64_pvalue := d_pvalue F64Ops.
+Definition f64_score := d_score F64Ops.
+Definition f64_scale := d_scale F64Ops.
+Definition f64_unscale_m := d_unscale F64Ops.
+Definition f64_min_pvalue := @d_min_pvalue F64.t.
+Definition f64_roundtrip := d_roundtrip F64Ops.
+Definition f64_chk_table := chk_table F64Ops.
+Definition f64_chk_mono := chk_mono F64Ops.
+Definition f64_chk_roundtrip := chk_roundtrip F64Ops.
+
+(* exact scale/offset of the discretisation (stage A only, no table) *)
+Definition q_scale_offset (m : list (list (cell Q))) : res (Q * Q) :=
+  small0 <- small_of QOps m ;;
+  large <- large_of QOps m ;;
+  let small := if eqb_n QOps small0 large then large - 1 else small0 in
+  let offset := inject_Z (Qfloor small) in
+  Ok (inject_Z (Qfloor (1000 / (large - offset))), offset).
